@@ -1,22 +1,25 @@
 ----------------------------- MODULE MC_Sticky -----------------------------
 EXTENDS Sticky, TLC, Json, CSV, IOUtils
-CONSTANTS MaxOps
+CONSTANTS MaxOps, MaxTimeouts
 MCBackSeq == <<"b1", "b2", "b3">>
 VARIABLES n, hist
 mcvars == <<vars, n, hist>>
+ntimeouts == Len(SelectSeq(hist, LAMBDA h : h.op = "timeout"))
 MCInit == Init /\ n = 0 /\ hist = <<>>
 Ev(op, d, m, b) == [op |-> op, d |-> d, m |-> m, b |-> b]
 MCNext == /\ n < MaxOps /\ n' = n + 1
           /\ \/ \E d \in Dialogs : Initial(d) /\ hist' = Append(hist, Ev("initial", d, "", ""))
-             \/ \E d \in Dialogs : Answer(d) /\ hist' = Append(hist, Ev("answer", d, "", ""))
+             \/ \E d \in Dialogs, lg \in BOOLEAN : Answer(d, lg) /\ hist' = Append(hist, Ev("answer", d, IF lg THEN "long" ELSE "", ""))
              \/ \E d \in Dialogs : ByeAnswered(d) /\ hist' = Append(hist, Ev("bye", d, "", ""))
              \/ \E d \in Dialogs : NotifyTerminated(d) /\ hist' = Append(hist, Ev("notify-term", d, "", ""))
              \/ \E d \in Dialogs, m \in Methods : InDialog(d, m) /\ hist' = Append(hist, Ev("indialog", d, m, ""))
-             \/ \E d \in Dialogs, b \in Backs : SubscribeAnswered(d, b) /\ hist' = Append(hist, Ev("bsub", d, "", b))
+             \/ \E d \in Dialogs, b \in Backs, lg \in BOOLEAN : SubscribeAnswered(d, b, lg) /\ hist' = Append(hist, Ev("bsub", d, IF lg THEN "long" ELSE "", b))
              \/ Unrelated /\ hist' = Append(hist, Ev("unrelated", "", "", ""))
              \/ UptimePasses /\ ~due /\ hist' = Append(hist, Ev("uptime", "", "", ""))
+             \/ TimeoutPasses /\ ntimeouts < MaxTimeouts /\ hist' = Append(hist, Ev("timeout", "", "", ""))
 MCSpec == MCInit /\ [][MCNext]_mcvars
-PropView == <<vars, n>>
+PropView == <<vars, n, ntimeouts>>
 EmitInv == (n = MaxOps) => CSVWrite("%1$s", <<ToJson(hist)>>, IOEnv.OUT)
+Reach_LongSurvives == ~(last.origin = "pin" /\ ntimeouts > 0 /\ last.dlg \in long)
 Reach_PinnedAfterRotation == ~(last.origin = "pin" /\ idx # 0)
 =============================================================================
